@@ -35,6 +35,7 @@ type Engine struct {
 	tier      string
 	ghosts    map[string]GhostDecl
 	assumedUsed map[string]bool
+	frozenIDs   map[string]bool // printed literal of frozen global object ids
 }
 
 func newEngine(repoDir string) (*Engine, error) {
@@ -80,7 +81,7 @@ func newEngine(repoDir string) (*Engine, error) {
 		}
 	}
 	// contracts
-	e.contracts = &ContractSet{Funcs: map[string]*Contract{}}
+	e.contracts = &ContractSet{Funcs: map[string]*Contract{}, Preds: map[string]*PredDecl{}, Frozen: map[string]bool{}}
 	for _, p := range pkgs {
 		for i, f := range p.Syntax {
 			name := p.CompiledGoFiles[i]
@@ -120,6 +121,12 @@ func newEngine(repoDir string) (*Engine, error) {
 	for k, c := range e.contracts.Funcs {
 		if _, ok := e.funcs[k]; ok {
 			c.Bound = true
+		}
+	}
+	e.frozenIDs = map[string]bool{}
+	for g, id := range e.globalIDs {
+		if g.Pkg != nil && e.contracts.Frozen[contractKey(g.Pkg.Pkg.Path(), g.Name())] {
+			e.frozenIDs[IntLit(id).S] = true
 		}
 	}
 	return e, nil
